@@ -254,3 +254,4 @@ MANIFEST = {
     'note': 'Trusted: reference model keys and lexopt; enumerating back end (cross-checked '
             'against CBC in the thorough tier).',
 }
+MANIFEST['text'] += (' ' + "6% of the cases are large or 'deep' instances (cost values above 10^4) on real CBC, checked with the prefix-consistency relation: the value an earlier criterion reaches in the full run equals the value it reaches when the run stops after it. Cases may carry decoy objects or earlier solves.")
